@@ -521,6 +521,10 @@ class J1939_22:
             return
 
         src_address = mid.source_address
+        if src_address == ParameterGroupNumber.Address.GLOBAL:
+            # 255 is not a valid source address: such a frame must neither be answered nor be
+            # matched with one of our own broadcast sessions (which are keyed with 255 as peer)
+            return
         control_byte  = data[0] & 0xF
         session_num   = (data[0] >> 4) & 0xF
         message_size  = (data[1]  & 0xFF) | ((data[2]  & 0xFF) << 8) | ((data[3] & 0xFF)  << 16)
